@@ -37,7 +37,7 @@ func TestC11(t *testing.T) {
 	if r.Thorough() {
 		trans = []string{"inproc", "tcp", "ipc", "tls+tcp", "ws", "wss"}
 	}
-	reps := r.Pick(8, 16) // race reports vary from run to run
+	reps := r.Pick(8, 48) // race reports vary from run to run
 	for rep := 0; rep < reps; rep++ {
 		for _, p := range hx.AllProtos {
 			for _, tr := range trans {
